@@ -313,11 +313,11 @@ def stepC08 (s : DSt) (op : String) (got : String) : StepResult DSt :=
             { s with horizon := max s.horizon s.now, interesting := s.interesting || ev }
     | _, _, _ => bad s
   | [a, ms] =>
-    if a == "adv" || a == "quiesce" then
+    if a == "adv" || a == "quiesce" || a == "advu" then
       if s.mode != .pit then bad s else
       match ms.toNat? with
       | some ms =>
-        let target := s.now + msNs ms
+        let target := s.now + (if a == "advu" then ms * 1000 else msNs ms)
         -- simultaneous PIT-update / DNL-tick: Go's select may take either first; follow the implementation
         let mA := advanceTo (fun _ => false) 200000 s.m target
         let mB := advanceTo (fun _ => true) 200000 s.m target
@@ -328,6 +328,7 @@ def stepC08 (s : DSt) (op : String) (got : String) : StepResult DSt :=
         let quiescent := a == "quiesce" && decide (target > s.horizon + period + s.dnlLife + 2 * period)
         let r := pitStep s (m', []) got quiescent
           ((if expired then ["adv-expire"] else []) ++ (if m'.dnl.length < s.m.dnl.length then ["adv-dnl-reap"] else []) ++
+           (if s.m.dnl.length > dnlBatch && m'.dnl.length < s.m.dnl.length then ["adv-dnl-over-batch"] else []) ++
            (if quiescent then ["quiescent"] else []) ++ (if renderDump mA [] != renderDump mB [] then ["adv-timer-tie"] else []) ++ (if exhausted then ["FUEL-EXHAUSTED"] else []))
           { s with now := target, interesting := s.interesting || expired }
         if exhausted then { r with expected := some "model-fuel-exhausted" } else r
